@@ -309,11 +309,14 @@ class C08:
     rule = ("an exception forest of 2-5 classes (depth <=3 under Exception) plus one non-exception class; a callee declaring 1-2 of "
             "them; an enclosing function or method whose body is a generated tree of raising sites (call of the callee as statement, "
             "initialiser or inside print; raise statement) nested in if/else, for, while, match arms, sequences and handles (guarded "
-            "call with 1-2 arms naming a class, an ancestor or Exception; sites inside arm bodies, where the handle's own classes no "
+            "call with 1-3 arms naming a class, an ancestor or Exception in any order, as statement / definition / annotated definition; sites inside arm bodies, where the handle's own classes no "
             "longer apply; sites after a handle) and whose raise declaration is drawn exact / empty / ancestors / random / with a "
             "non-exception class. Oracle: the model computes for every site whether every class it may raise has itself or an "
             "ancestor in an enclosing guard or in the declaration; accepted iff all sites are covered and every declared class descends "
-            "from Exception. Non-trivial: >=1 raising site inside the function (always); distinct by SHA-1 of the source; mode x "
+            "from Exception; 30-50% of the programs carry a signature without body that declares raises before the function. Run-time stage: "
+            "every accepted conforming program is executed with a driver that calls the function for six arguments; the printed trace and "
+            "the class that leaves the function are compared with the generator's reference interpreter (catches exactly the listed "
+            "classes). Non-trivial: >=1 raising site inside the function (always); distinct by SHA-1 of the source; mode x "
             "site-kind histogram reported.")
     assumptions = ["callee methods are outside the statement (it says 'function'); methods are generated as enclosing bodies only",
                    "a verdict that differs from the expectation is re-run 10x; an unstable verdict is C12's finding"]
